@@ -5,7 +5,7 @@
    CNAME/other-data exclusivity.  Proofs: Proofs/Txn*.v. *)
 From DV Require Import Base.Prelude Model.NameM Model.TxnM.
 From DV Require Import Proofs.NameValid Proofs.TxnName Proofs.TxnStore Proofs.TxnLow Proofs.TxnSim Proofs.TxnThm
-                       Proofs.TxnIrrel Proofs.TxnSpec Proofs.TxnInv Proofs.TxnItems Proofs.TxnAbs Proofs.TxnHeap Proofs.TxnCount.
+                       Proofs.TxnIrrel Proofs.TxnSpec Proofs.TxnInv Proofs.TxnItems Proofs.TxnAbs Proofs.TxnHeap Proofs.TxnCount Proofs.TxnObj.
 Open Scope Z_scope.
 
 (* Any history of transactions - every operation and argument form, manual commit/rollback or with-block,
@@ -114,6 +114,29 @@ Theorem published_objects_never_mutated :
   forall id, (id < length (fst z))%nat -> hnode (hv_heap (t_st t')) id = hnode (fst z) id.
 Proof. exact TxnHeap.published_objects_never_mutated. Qed.
 Print Assumptions published_objects_never_mutated.
+
+(* The same one level deeper, where Rdataset / ImmutableRdataset objects have identity too (a copied node shares
+   its rdataset objects with the published node; in a plain zone they are mutable): every rdataset object -
+   value and mutability - and every node object that existed when the transaction began is exactly as it was,
+   because every in-place method is applied to an object the transaction created itself (the clone of
+   union/intersection/difference, the Rdataset copy of an ImmutableRdataset in _add, the copied node).  An
+   in-place edit of a published rdataset is thereby excluded for this model. *)
+Theorem published_rdataset_objects_never_mutated :
+  forall c rh nh m mode ops t',
+  o_final c ops (rh, nh, m) (o_open mode (rh, nh, m)) = Some t' ->
+  (forall i, (i < length rh)%nat -> nth i (ov_rh (t_st t')) robj0 = nth i rh robj0) /\
+  (forall i, (i < length nh)%nat -> nth i (ov_nh (t_st t')) [] = nth i nh []).
+Proof. exact published_rdatasets_never_mutated. Qed.
+Print Assumptions published_rdataset_objects_never_mutated.
+
+(* commit (incl. the ImmutableVersion wrapping of versioned / B-tree zones) only allocates new objects *)
+Theorem commit_never_mutates_objects :
+  forall c v,
+  let '(rh', nh', _) := o_publish c v in
+  (forall i, (i < length (ov_rh v))%nat -> nth i rh' robj0 = nth i (ov_rh v) robj0) /\
+  (forall i, (i < length (ov_nh v))%nat -> nth i nh' [] = nth i (ov_nh v) []).
+Proof. exact publish_never_mutates. Qed.
+Print Assumptions commit_never_mutates_objects.
 
 (* the object-level model refines the value-level model that `refines` is about: same results for every
    call, and the published objects dereference to the published value *)
@@ -446,3 +469,12 @@ Proof.
   cbn. constructor; [|constructor; [exact Logic.I|constructor]].
   repeat split; [repeat constructor; cbn; lia|cbn; lia|constructor].
 Qed.
+
+(* the rdataset-object model on the example history: the committed add creates rdataset object 0 (mutable, plain
+   zone) held by node object 0; the aborted transaction leaves both; o_final is defined on it *)
+Example ex_obj_run :
+  map snd (obj_hist ex_cfg ex_hist ([], [], [])) =
+  [ ([mkRobj ex_a false], [[0%nat]], [(ex_www, 0%nat)]); ([mkRobj ex_a false], [[0%nat]], [(ex_www, 0%nat)]) ] /\
+  exists t', o_final ex_cfg [ODelete [AName ex_www_abs; AInt 1]] ([mkRobj ex_a false], [[0%nat]], [(ex_www, 0%nat)])
+                     (o_open 0 ([mkRobj ex_a false], [[0%nat]], [(ex_www, 0%nat)])) = Some t'.
+Proof. split; [vm_compute; reflexivity|]. eexists. vm_compute. reflexivity. Qed.
